@@ -497,7 +497,11 @@ class ConcurrentExecutor(ABC, Generic[CallableType, ResultType]):
                 config=ChildConfig(
                     serdes=self.item_serdes or self.serdes,
                     sub_type=self.sub_type_iteration,
-                    summary_generator=self.summary_generator,
+                    # self.summary_generator summarises the BatchResult of the whole operation;
+                    # applied to a single branch's own (oversized) result it fails the branch.
+                    # Without a generator an oversized branch result is recorded as an empty
+                    # summary and rebuilt from the branch's children on replay.
+                    summary_generator=None,
                 ),
             )
         finally:
